@@ -28,15 +28,21 @@
                    unanswered request                                                   *)
 EXTENDS Naturals, Sequences, FiniteSets, TLC, Json
 
-CONSTANTS CallerSeq,   \* sequence of caller names, e.g. <<"c1","c2","c3">>
+CONSTANTS NCallers,    \* callers are 1..NCallers
           Calls,       \* at most this many consecutive calls per caller
           MaxSet,      \* values of Net.MaxOpenRequests
-          MaxFaults,   \* number of faulty server answers (the read timeout is not budgeted)
+          MaxFaults,   \* >= 1: one faulty server answer may occur; the read timeout is not budgeted, except
+                       \* in role 2 where (faulty answer, read timeout) together are at most MaxFaults
           WithClose,   \* Broker.Close may race with the calls
-          EmitCases    \* role 2: record the projection of the behaviour replayed by the harness
+          EmitCases,   \* role 2: record the projection of the behaviour replayed by the harness; the
+                       \* read timeout may then fire only after `timeoutAt` server answers (scripted)
+          Conducted    \* role 2: environment steps (start a call, Close, a server answer, the read
+                       \* timeout) happen only when the client is quiescent, except that goroutine
+                       \* spawns may come in bursts - the schedules a conductor can reproduce exactly
 
-Callers == {CallerSeq[k] : k \in DOMAIN CallerSeq}
-None == "none"
+Callers == 1..NCallers
+None == 0                 \* b.lock is free
+CloserId == NCallers + 1  \* b.lock held by Broker.Close
 FaultKinds == {"wrongid", "nested", "ooo", "trunc", "oversize", "close"}
 Kinds == {"ok"} \cup FaultKinds
 
@@ -44,7 +50,7 @@ VARIABLES max,        \* Net.MaxOpenRequests of this connection
           quota,      \* number of calls each caller will make
           willClose,  \* whether Close is called in this behaviour
           pc, ncall,  \* per caller: idle / want / locked / wrote / waiting ; calls started
-          lock,       \* b.lock: "none", a caller, or "closer"
+          lock,       \* b.lock: None, a caller, or CloserId
           corr,       \* b.correlationID
           req,        \* correlation id of each caller's current request
           unans,      \* server side: requests received and not yet answered (arrival order)
@@ -53,41 +59,51 @@ VARIABLES max,        \* Net.MaxOpenRequests of this connection
           srvOut,     \* bytes from the server not yet read: sequence of frames
           dead,       \* responseReceiver's sticky `dead`
           chClosed, rdone, connOpen, closer,   \* Close protocol
-          faults, srvEnded, srvClosed, srvFaulted,  \* server script state
+          srvEnded, srvClosed, srvFaulted,  \* server state
+          faultAt, timeoutAt, nans,                 \* server script: which answer is faulty, number of answers so far
+          burst,      \* Conducted: the previous step spawned a goroutine
           sent,       \* history: frames the server sent
           done,       \* history: finished calls
           errSeen,    \* some call has returned an error
           hist        \* role 2 projection
 
 vars == <<max, quota, willClose, pc, ncall, lock, corr, req, unans, respQ, recv, srvOut, dead,
-          chClosed, rdone, connOpen, closer, faults, srvEnded, srvClosed, srvFaulted,
-          sent, done, errSeen, hist>>
+          chClosed, rdone, connOpen, closer, srvEnded, srvClosed, srvFaulted,
+          faultAt, timeoutAt, nans, burst, sent, done, errSeen, hist>>
 
 Tag(c) == <<c, ncall[c]>>
-NonIncreasing(q) == \A k \in 1..(Len(CallerSeq) - 1) : q[CallerSeq[k]] >= q[CallerSeq[k + 1]]
+NonIncreasing(q) == \A k \in 1..(NCallers - 1) : q[k] >= q[k + 1]
 
 Init ==
   /\ max \in MaxSet
   /\ quota \in [Callers -> 0..Calls]
-  /\ NonIncreasing(quota) /\ quota[CallerSeq[1]] > 0      \* callers are interchangeable
+  /\ NonIncreasing(quota) /\ quota[1] > 0      \* callers are interchangeable
   /\ willClose \in (IF WithClose THEN BOOLEAN ELSE {FALSE})
   /\ pc = [c \in Callers |-> "idle"] /\ ncall = [c \in Callers |-> 0]
   /\ lock = None /\ corr = 0 /\ req = [c \in Callers |-> 0]
   /\ unans = <<>> /\ respQ = <<>> /\ recv = <<>> /\ srvOut = <<>>
   /\ dead = FALSE /\ chClosed = FALSE /\ rdone = FALSE /\ connOpen = TRUE /\ closer = "idle"
-  /\ faults = 0 /\ srvEnded = FALSE /\ srvClosed = FALSE /\ srvFaulted = FALSE
+  /\ faultAt \in (IF MaxFaults = 0 THEN {0} ELSE 0..(NCallers * Calls))   \* 0: no faulty answer
+  /\ timeoutAt \in (IF EmitCases THEN 0..(NCallers * Calls + 1) ELSE {0})    \* scripted: N+1 = never
+  /\ EmitCases => (IF faultAt # 0 THEN 1 ELSE 0) + (IF timeoutAt # NCallers * Calls + 1 THEN 1 ELSE 0) <= MaxFaults
+  /\ nans = 0 /\ burst = FALSE
+  /\ srvEnded = FALSE /\ srvClosed = FALSE /\ srvFaulted = FALSE
   /\ sent = {} /\ done = {} /\ errSeen = FALSE
   /\ hist = <<>>
 
 H(a, c, kind) == hist' = IF EmitCases THEN Append(hist, [a |-> a, c |-> c, kind |-> kind]) ELSE hist
 NoH == UNCHANGED hist
 
-\* a call of caller c returns r (a response content = tag of the answered request, or "err")
-Finish(c, r) ==
+HE(a, c, kind) == [a |-> a, c |-> c, kind |-> kind]
+\* a call of caller c returns: ok with a response content (the tag of the request the frame
+\* answered), or an error (content is then meaningless)
+FinishP(c, ok, content, pre) ==
   /\ pc' = [pc EXCEPT ![c] = "idle"]
-  /\ done' = done \cup {[tag |-> Tag(c), res |-> r, deadAtReturn |-> dead]}
-  /\ errSeen' = (errSeen \/ r = "err")
-  /\ H("ret", c, IF r = "err" THEN "err" ELSE "ok")
+  /\ done' = done \cup {[tag |-> Tag(c), ok |-> ok, res |-> content, deadAtReturn |-> dead]}
+  /\ errSeen' = (errSeen \/ ~ok)
+  /\ hist' = IF EmitCases THEN hist \o pre \o <<HE("ret", c, IF ok THEN "ok" ELSE "err")>> ELSE hist
+Finish(c, ok, content) == FinishP(c, ok, content, <<>>)
+Fail(c) == Finish(c, FALSE, Tag(c))
 
 -----------------------------------------------------------------------------
 (* callers: Broker.sendAndReceive / Broker.send *)
@@ -96,20 +112,20 @@ Start(c) ==
   /\ pc' = [pc EXCEPT ![c] = "want"] /\ ncall' = [ncall EXCEPT ![c] = @ + 1]
   /\ H("start", c, IF errSeen THEN "aftererr" ELSE "-")
   /\ UNCHANGED <<max, quota, willClose, lock, corr, req, unans, respQ, recv, srvOut, dead, chClosed,
-                 rdone, connOpen, closer, faults, srvEnded, srvClosed, srvFaulted, sent, done, errSeen>>
+                 rdone, connOpen, closer, srvEnded, srvClosed, srvFaulted, sent, done, errSeen>>
 
 Lock(c) ==
   /\ pc[c] = "want" /\ lock = None
   /\ lock' = c /\ pc' = [pc EXCEPT ![c] = "locked"]
   /\ NoH
   /\ UNCHANGED <<max, quota, willClose, ncall, corr, req, unans, respQ, recv, srvOut, dead, chClosed,
-                 rdone, connOpen, closer, faults, srvEnded, srvClosed, srvFaulted, sent, done, errSeen>>
+                 rdone, connOpen, closer, srvEnded, srvClosed, srvFaulted, sent, done, errSeen>>
 
 NotConn(c) ==
   /\ pc[c] = "locked" /\ ~connOpen
-  /\ Finish(c, "err") /\ lock' = None
+  /\ Fail(c) /\ lock' = None
   /\ UNCHANGED <<max, quota, willClose, ncall, corr, req, unans, respQ, recv, srvOut, dead, chClosed,
-                 rdone, connOpen, closer, faults, srvEnded, srvClosed, srvFaulted, sent>>
+                 rdone, connOpen, closer, srvEnded, srvClosed, srvFaulted, sent>>
 
 \* encode + write + correlationID++ : from here the request is on the wire
 Write(c) ==
@@ -119,13 +135,13 @@ Write(c) ==
   /\ IF srvClosed THEN UNCHANGED unans /\ NoH      \* written into a connection the peer has closed
      ELSE unans' = Append(unans, [corr |-> corr, tag |-> Tag(c)]) /\ H("write", c, "-")
   /\ UNCHANGED <<max, quota, willClose, ncall, lock, respQ, recv, srvOut, dead, chClosed, rdone, connOpen,
-                 closer, faults, srvEnded, srvClosed, srvFaulted, sent, done, errSeen>>
+                 closer, srvEnded, srvClosed, srvFaulted, sent, done, errSeen>>
 
 WriteFail(c) ==
   /\ pc[c] = "locked" /\ connOpen /\ srvClosed
-  /\ Finish(c, "err") /\ lock' = None
+  /\ Fail(c) /\ lock' = None
   /\ UNCHANGED <<max, quota, willClose, ncall, corr, req, unans, respQ, recv, srvOut, dead, chClosed,
-                 rdone, connOpen, closer, faults, srvEnded, srvClosed, srvFaulted, sent>>
+                 rdone, connOpen, closer, srvEnded, srvClosed, srvFaulted, sent>>
 
 \* b.responses <- promise: buffered channel of capacity max-1, or direct hand-off to the
 \* receiver parked in `range b.responses`; then the deferred unlock
@@ -138,7 +154,7 @@ Enqueue(c) ==
   /\ pc' = [pc EXCEPT ![c] = "waiting"] /\ lock' = None
   /\ NoH
   /\ UNCHANGED <<max, quota, willClose, ncall, corr, req, unans, srvOut, dead, chClosed, rdone, connOpen,
-                 closer, faults, srvEnded, srvClosed, srvFaulted, sent, done, errSeen>>
+                 closer, srvEnded, srvClosed, srvFaulted, sent, done, errSeen>>
 
 -----------------------------------------------------------------------------
 (* responseReceiver *)
@@ -147,7 +163,7 @@ RecvTake ==
   /\ recv' = <<Head(respQ)>> /\ respQ' = Tail(respQ)
   /\ NoH
   /\ UNCHANGED <<max, quota, willClose, pc, ncall, lock, corr, req, unans, srvOut, dead, chClosed, rdone,
-                 connOpen, closer, faults, srvEnded, srvClosed, srvFaulted, sent, done, errSeen>>
+                 connOpen, closer, srvEnded, srvClosed, srvFaulted, sent, done, errSeen>>
 
 \* header read + decode + correlation check + body read, then the rendezvous with the caller
 RecvRead ==
@@ -155,67 +171,64 @@ RecvRead ==
   /\ LET p == recv[1]  f == Head(srvOut) IN
        /\ srvOut' = Tail(srvOut)
        /\ IF f.ok /\ f.hdr = p.corr
-            THEN Finish(p.c, f.content) /\ UNCHANGED dead
-            ELSE Finish(p.c, "err") /\ dead' = TRUE
+            THEN Finish(p.c, TRUE, f.content) /\ UNCHANGED dead
+            ELSE Fail(p.c) /\ dead' = TRUE
   /\ recv' = <<>>
   /\ UNCHANGED <<max, quota, willClose, ncall, lock, corr, req, unans, respQ, chClosed, rdone, connOpen,
-                 closer, faults, srvEnded, srvClosed, srvFaulted, sent>>
+                 closer, srvEnded, srvClosed, srvFaulted, sent>>
 
 \* nothing to read until the deadline set by readFull expires
 RecvTimeout ==
   /\ recv # <<>> /\ ~dead /\ srvOut = <<>>
-  /\ H("timeout", recv[1].c, "-") /\ FALSE = FALSE
-  /\ pc' = [pc EXCEPT ![recv[1].c] = "idle"]
-  /\ done' = done \cup {[tag |-> Tag(recv[1].c), res |-> "err", deadAtReturn |-> dead]}
-  /\ errSeen' = TRUE
+  /\ EmitCases => nans = timeoutAt
+  /\ FinishP(recv[1].c, FALSE, Tag(recv[1].c), <<HE("timeout", recv[1].c, "-")>>)
   /\ dead' = TRUE /\ recv' = <<>>
   /\ UNCHANGED <<max, quota, willClose, ncall, lock, corr, req, unans, respQ, srvOut, chClosed, rdone,
-                 connOpen, closer, faults, srvEnded, srvClosed, srvFaulted, sent>>
+                 connOpen, closer, srvEnded, srvClosed, srvFaulted, sent>>
 
 RecvDead ==
   /\ recv # <<>> /\ dead
-  /\ Finish(recv[1].c, "err") /\ recv' = <<>>
+  /\ Fail(recv[1].c) /\ recv' = <<>>
   /\ UNCHANGED <<max, quota, willClose, ncall, lock, corr, req, unans, respQ, srvOut, dead, chClosed, rdone,
-                 connOpen, closer, faults, srvEnded, srvClosed, srvFaulted, sent>>
+                 connOpen, closer, srvEnded, srvClosed, srvFaulted, sent>>
 
 RecvExit ==
   /\ chClosed /\ ~rdone /\ respQ = <<>> /\ recv = <<>>
   /\ rdone' = TRUE
   /\ NoH
   /\ UNCHANGED <<max, quota, willClose, pc, ncall, lock, corr, req, unans, respQ, recv, srvOut, dead,
-                 chClosed, connOpen, closer, faults, srvEnded, srvClosed, srvFaulted, sent, done, errSeen>>
+                 chClosed, connOpen, closer, srvEnded, srvClosed, srvFaulted, sent, done, errSeen>>
 
 -----------------------------------------------------------------------------
 (* Broker.Close *)
 CloseStart ==
   /\ willClose /\ closer = "idle"
   /\ closer' = "want"
-  /\ H("close", "-", "-")
+  /\ H("close", 0, "-")
   /\ UNCHANGED <<max, quota, willClose, pc, ncall, lock, corr, req, unans, respQ, recv, srvOut, dead,
-                 chClosed, rdone, connOpen, faults, srvEnded, srvClosed, srvFaulted, sent, done, errSeen>>
+                 chClosed, rdone, connOpen, srvEnded, srvClosed, srvFaulted, sent, done, errSeen>>
 
 CloseLock ==
   /\ closer = "want" /\ lock = None
-  /\ lock' = "closer" /\ closer' = "waiting" /\ chClosed' = TRUE
+  /\ lock' = CloserId /\ closer' = "waiting" /\ chClosed' = TRUE
   /\ NoH
   /\ UNCHANGED <<max, quota, willClose, pc, ncall, corr, req, unans, respQ, recv, srvOut, dead,
-                 rdone, connOpen, faults, srvEnded, srvClosed, srvFaulted, sent, done, errSeen>>
+                 rdone, connOpen, srvEnded, srvClosed, srvFaulted, sent, done, errSeen>>
 
 CloseFinish ==
   /\ closer = "waiting" /\ rdone
   /\ connOpen' = FALSE /\ lock' = None /\ closer' = "done"
-  /\ H("closed", "-", "-")
+  /\ H("closed", 0, "-")
   /\ UNCHANGED <<max, quota, willClose, pc, ncall, corr, req, unans, respQ, recv, srvOut, dead,
-                 chClosed, rdone, faults, srvEnded, srvClosed, srvFaulted, sent, done, errSeen>>
+                 chClosed, rdone, srvEnded, srvClosed, srvFaulted, sent, done, errSeen>>
 
 -----------------------------------------------------------------------------
 (* the peer *)
 Frame(ok, hdr, content) == [ok |-> ok, hdr |-> hdr, content |-> content]
 Server(kind) ==
   /\ unans # <<>> /\ connOpen /\ ~srvEnded /\ ~srvClosed
-  /\ kind # "ok" => faults < MaxFaults
+  /\ (kind # "ok") <=> (nans + 1 = faultAt)
   /\ kind = "ooo" => Len(unans) >= 2
-  /\ faults' = IF kind = "ok" THEN faults ELSE faults + 1
   /\ LET r == IF kind = "ooo" THEN unans[2] ELSE Head(unans)
          hdr == IF kind \in {"wrongid", "nested"} THEN r.corr + 100 ELSE r.corr
          wellFormed == kind \in {"ok", "wrongid", "nested", "ooo"}
@@ -227,31 +240,57 @@ Server(kind) ==
   /\ srvFaulted' = (srvFaulted \/ kind # "ok")
   /\ srvEnded' = (srvEnded \/ kind \in {"trunc", "oversize", "close"})
   /\ srvClosed' = (srvClosed \/ kind = "close")
-  /\ H("srv", "-", kind)
+  /\ H("srv", 0, kind)
   /\ UNCHANGED <<max, quota, willClose, pc, ncall, lock, corr, req, respQ, recv, dead, chClosed, rdone,
                  connOpen, closer, done, errSeen>>
 
 -----------------------------------------------------------------------------
+\* some step of the client's own goroutines is enabled (the guards of the actions above)
+ClientStepEnabled ==
+  \/ \E c \in Callers : \/ (pc[c] = "want" /\ lock = None)
+                         \/ pc[c] = "locked"
+                         \/ (pc[c] = "wrote" /\ (Len(respQ) < max - 1 \/ (respQ = <<>> /\ recv = <<>> /\ ~rdone)))
+  \/ (recv = <<>> /\ respQ # <<>>)
+  \/ (recv # <<>> /\ (dead \/ srvOut # <<>>))
+  \/ (chClosed /\ ~rdone /\ respQ = <<>> /\ recv = <<>>)
+  \/ (closer = "want" /\ lock = None)
+  \/ (closer = "waiting" /\ rdone)
+EnvOK(spawn) == ~Conducted \/ ~ClientStepEnabled \/ (spawn /\ burst)
+LowestStartable(c) == \A d \in Callers : (pc[d] = "idle" /\ ncall[d] < quota[d]) => c <= d
+Script == UNCHANGED <<faultAt, timeoutAt>>
+
+Int(A) == A /\ burst' = FALSE /\ Script /\ UNCHANGED nans      \* a step of the client's own goroutines
+EStart(c) == /\ Start(c) /\ (Conducted => LowestStartable(c))
+             /\ EnvOK(TRUE) /\ burst' = Conducted /\ Script /\ UNCHANGED nans
+ECloseStart == CloseStart /\ EnvOK(TRUE) /\ burst' = Conducted /\ Script /\ UNCHANGED nans
+EServer(k) == Server(k) /\ EnvOK(FALSE) /\ burst' = FALSE /\ Script /\ nans' = nans + 1
+ETimeout == RecvTimeout /\ EnvOK(FALSE) /\ burst' = FALSE /\ Script /\ UNCHANGED nans
+
 Next ==
-  \/ \E c \in Callers : Start(c) \/ Lock(c) \/ NotConn(c) \/ Write(c) \/ WriteFail(c) \/ Enqueue(c)
-  \/ RecvTake \/ RecvRead \/ RecvTimeout \/ RecvDead \/ RecvExit
-  \/ CloseStart \/ CloseLock \/ CloseFinish
-  \/ \E k \in Kinds : Server(k)
+  \/ \E c \in Callers : EStart(c)
+  \/ ECloseStart
+  \/ \E k \in Kinds : EServer(k)
+  \/ ETimeout
+  \/ \E c \in Callers : Int(Lock(c)) \/ Int(NotConn(c)) \/ Int(Write(c)) \/ Int(WriteFail(c)) \/ Int(Enqueue(c))
+  \/ Int(RecvTake) \/ Int(RecvRead) \/ Int(RecvDead) \/ Int(RecvExit)
+  \/ Int(CloseLock) \/ Int(CloseFinish)
 
 Spec == Init /\ [][Next]_vars
 
 \* the client's own steps are weakly fair; nothing is assumed about the peer (a silent peer
 \* is answered by RecvTimeout) nor about whether callers start calls
 Fair ==
-  /\ \A c \in Callers : WF_vars(Lock(c)) /\ WF_vars(NotConn(c) \/ Write(c) \/ WriteFail(c)) /\ WF_vars(Enqueue(c))
-  /\ WF_vars(RecvTake) /\ WF_vars(RecvRead \/ RecvTimeout) /\ WF_vars(RecvDead) /\ WF_vars(RecvExit)
-  /\ WF_vars(CloseLock) /\ WF_vars(CloseFinish)
+  /\ \A c \in Callers : /\ WF_vars(Int(Lock(c)))
+                         /\ WF_vars(Int(NotConn(c)) \/ Int(Write(c)) \/ Int(WriteFail(c)))
+                         /\ WF_vars(Int(Enqueue(c)))
+  /\ WF_vars(Int(RecvTake)) /\ WF_vars(Int(RecvRead) \/ ETimeout) /\ WF_vars(Int(RecvDead)) /\ WF_vars(Int(RecvExit))
+  /\ WF_vars(Int(CloseLock)) /\ WF_vars(Int(CloseFinish))
 FairSpec == Spec /\ Fair
 
 -----------------------------------------------------------------------------
 (* properties *)
 TypeOK ==
-  /\ max \in MaxSet /\ lock \in Callers \cup {None, "closer"}
+  /\ max \in MaxSet /\ lock \in Callers \cup {None, CloserId}
   /\ \A c \in Callers : pc[c] \in {"idle", "want", "locked", "wrote", "waiting"} /\ ncall[c] <= quota[c]
   /\ Len(respQ) <= max - 1 /\ Len(recv) <= 1
   /\ closer \in {"idle", "want", "waiting", "done"}
@@ -264,7 +303,7 @@ InFlightPlus1 == Cardinality(OnWire) <= max + 1      \* what the code guarantees
 \* as long as the connection is healthy
 ServerCountSound == (~dead /\ ~srvFaulted) => Len(unans) <= Cardinality(OnWire)
 
-Succ(d) == d.res # "err"
+Succ(d) == d.ok
 \* a call returns the response sent for that very request, or an error
 OwnResponseOrError ==
   \A d \in done : Succ(d) => /\ d.res = d.tag
